@@ -3,14 +3,8 @@
 //! plays a scenario (records with one / several / split PDUs, pauses, one of the ways to end the
 //! session, concurrent input from the "GUI" side); the driver records what reached the bitmap channel
 //! and whether the thread finished.
-#[path = "../../harness/src/refpeer.rs"]
-#[allow(dead_code)]
-mod refpeer;
-#[path = "../../harness/src/tlspeer.rs"]
-#[allow(dead_code)]
-mod tlspeer;
-
 use crate::gui::drive;
+use crate::{refpeer, tlspeer};
 use rdp::core::client::{Connector, RdpClient};
 use rdp::core::event::{BitmapEvent, KeyboardEvent, RdpEvent};
 use refpeer as rp;
@@ -49,10 +43,12 @@ fn bitmap_pdu(k: u64) -> Vec<u8> {
     rp::fast_path(&[rp::FpUpdate::Bitmap(vec![rp::Rect { l: k as u16, t: 0, r: k as u16, b: 0, w: 1, h: 1, bpp: 32, flags: 0, data: vec![k as u8, 0, 0, 0] }])], false, 0)
 }
 
-fn serve_connect(mut io: ServerIo) -> Option<ServerIo> {
+fn serve_connect(mut io: ServerIo, nla: bool) -> Option<ServerIo> {
     io.recv_tpkt().ok()?;
-    io.send(&rp::conn_confirm(2, 0, 1), "cc").ok()?;
+    io.send(&rp::conn_confirm(2, 0, if nla { 2 } else { 1 }), "cc").ok()?;
     if !io.tls_accept("leaf") { return None; }
+    // Hybrid selected: the same session, reached through CredSSP (the x224 layer then runs in its NLA configuration)
+    if nla && !crate::nlapeer::serve_credssp(&mut io, &json!({"account": {"domain": [100], "user": [117], "password": [112]}})) { return None; }
     io.recv_tpkt().ok()?;
     io.send(&rp::mcs_connect_response(&rp::ScBlocks::default()), "cr").ok()?;
     io.recv_tpkt().ok()?;
@@ -73,8 +69,9 @@ fn run_scenario(sc: &Value, out: &mut dyn Write) {
     ev!(json!({"ev": "reset", "run": sc.get("id")}));
     let (csock, ssock) = UnixStream::pair().unwrap();
     let fd = csock.as_raw_fd();
-    let server = thread::spawn(move || serve_connect(ServerIo::new(ssock)));
-    let client = Connector::new().screen(800, 600).credentials("d".into(), "u".into(), "p".into()).use_nla(false).check_certificate(false).connect(csock);
+    let nla = sc.get("nla").and_then(|x| x.as_bool()).unwrap_or(false);
+    let server = thread::spawn(move || serve_connect(ServerIo::new(ssock), nla));
+    let client = Connector::new().screen(800, 600).credentials("d".into(), "u".into(), "p".into()).use_nla(nla).check_certificate(false).connect(csock);
     let mut io = match server.join().ok().flatten() { Some(io) => io, None => { ev!(json!({"ev": "harness_error", "what": "server side of connect failed"})); return; } };
     let mut client = match client { Ok(c) => c, Err(e) => { ev!(json!({"ev": "harness_error", "what": format!("connect failed {:?}", e)})); return; } };
     // activation, synchronously - unless the scenario leaves it to the receive thread
@@ -161,6 +158,36 @@ fn run_scenario(sc: &Value, out: &mut dyn Write) {
             // concurrent input writes from the GUI side, under the shared mutex
             let c2 = client.clone();
             thread::spawn(move || { for i in 0..n { if let Ok(mut g) = c2.lock() { let _ = g.try_write(RdpEvent::Key(KeyboardEvent { code: 30 + i as u16, down: i % 2 == 0 })); } thread::sleep(Duration::from_millis(1)); } });
+        } else if let Some(mode) = step.get("end").and_then(|x| x.as_str()).filter(|m| m.starts_with("in_record")) {
+            // the PDU that ends the session shares its TLS record with the PDUs in front of it, and the server keeps the
+            // connection open afterwards: the thread has to stop on what it has read, nothing else will wake it
+            let mut bytes = Vec::new();
+            let mut pdus: Vec<Value> = Vec::new();
+            for p in step.get("with").and_then(|x| x.as_array()).cloned().unwrap_or_default() {
+                let k = p.get(1).and_then(|x| x.as_u64()).unwrap_or(0);
+                match p[0].as_str().unwrap_or("") {
+                    "bmp" => { bytes.extend(bitmap_pdu(k)); sent.push(k); }
+                    "bmp3" => { bytes.extend(bitmap3_pdu(k)); sent.push(k); sent.push(k + 1); sent.push(k + 2); }
+                    "ctl" => bytes.extend(ctl_pdu(p.get(1).and_then(|x| x.as_str()).unwrap_or(""))),
+                    _ => {}
+                }
+                pdus.push(p.clone());
+            }
+            let tok = if mode.ends_with("bad_rdp") { bytes.extend(rp::x224_data(&[0xfc, 0, 0, 0, 0])); "bad_rdp" }
+                      else if mode.ends_with("bad_io") { bytes.extend(rp::tpkt(&[2])); "bad_io" }
+                      else { bytes.extend(rp::disconnect_ultimatum()); "ult" };
+            pdus.push(json!([tok]));
+            let _ = io.send(&bytes, "");
+            io.events.clear();
+            ended = true;
+            ev!(json!({"ev": "srv_record", "pdus": pdus}));
+            ev!(json!({"ev": "srv_end", "mode": mode}));
+            let ms = settle(&mut fwd, sent.len());
+            ev!(json!({"ev": "quiet", "fwd": fwd, "after_ms": ms as u64}));
+            match jrx.recv_timeout(Duration::from_millis(sc.get("join_ms").and_then(|x| x.as_u64()).unwrap_or(1500))) {
+                Ok(ok) => { joined = Some(ok); ev!(json!({"ev": "joined", "clean": ok})); }
+                Err(_) => { ev!(json!({"ev": "not_joined", "mode": mode})); }
+            }
         } else if let Some(mode) = step.get("end").and_then(|x| x.as_str()) {
             match mode {
                 "ultimatum" => { let _ = io.send(&rp::disconnect_ultimatum(), ""); io.close("notify"); }
